@@ -21,33 +21,54 @@ def valueEnc : Value → Bytes
   | .str s => 3 :: (uvEnc s.length ++ s)
   | .bool b => [4, if b then 1 else 0]
 
-/-- Outcome of decoding one section. -/
+/-- Outcome of a decoder: value and remaining input, a failure with a message
+(input ended early or was rejected), or `panic` where the Go code panics. -/
 inductive Dec (α : Type) where
   | ok (a : α) (rest : Bytes)
-  | short            -- input ended early (`io.ErrUnexpectedEOF` / `io.EOF`)
-  | panic            -- the Go code panics (unknown type code)
+  | fail (msg : String)
+  | panic
   deriving Repr
 
+/-- A decoder over the remaining bytes. -/
+abbrev P (α : Type) := Bytes → Dec α
+
+def P.pure {α} (a : α) : P α := fun bs => .ok a bs
+def P.bind {α β} (p : P α) (f : α → P β) : P β := fun bs =>
+  match p bs with
+  | .ok a r => f a r
+  | .fail m => .fail m
+  | .panic => .panic
+
+instance : Monad P where
+  pure := P.pure
+  bind := P.bind
+
+/-- Replace the message of a failure (the Go code wraps the error with the section name). -/
+def label {α} (msg : String) (p : P α) : P α := fun bs =>
+  match p bs with
+  | .fail _ => .fail msg
+  | r => r
+
+/-- `uvarintFromBuf`. -/
+def pUv : P Nat := fun bs =>
+  match uvDec bs with
+  | some (x, r) => .ok x r
+  | none => .fail "unexpected EOF"
+
+/-- `io.ReadFull` of exactly `n` bytes. -/
+def pTake (n : Nat) : P Bytes := fun bs =>
+  if bs.length < n then .fail "unexpected EOF" else .ok (bs.take n) (bs.drop n)
+
 /-- `valueFromBuf`. -/
-def valueDec : Bytes → Dec Value
-  | [] => .short
+def pValue : P Value := fun bs =>
+  match bs with
+  | [] => .fail "EOF"
   | c :: rest =>
     if c = 0 then .ok .nil rest
-    else if c = 1 then
-      match uvDec rest with
-      | some (x, r) => .ok (.int (UInt64.ofNat x).toInt64) r
-      | none => .short
-    else if c = 2 then
-      if rest.length < 8 then .short
-      else .ok (.float (UInt64.ofNat (beVal (rest.take 8)))) (rest.drop 8)
-    else if c = 3 then
-      match uvDec rest with
-      | some (k, r) => if r.length < k then .short else .ok (.str (r.take k)) (r.drop k)
-      | none => .short
-    else if c = 4 then
-      match rest with
-      | b :: r => .ok (.bool (b != 0)) r
-      | [] => .short
+    else if c = 1 then (do let x ← pUv; pure (Value.int (UInt64.ofNat x).toInt64)) rest
+    else if c = 2 then (do let b ← pTake 8; pure (Value.float (UInt64.ofNat (beVal b)))) rest
+    else if c = 3 then (do let k ← pUv; let s ← pTake k; pure (Value.str s)) rest
+    else if c = 4 then (do let b ← pTake 1; pure (Value.bool (b != [0]))) rest
     else .panic
 
 end Bclv
